@@ -14,6 +14,7 @@ import Proofs.TypePlan
 import Proofs.MarkTotal
 import Props.C01
 import Proofs.TypePlanFit
+import Props.C11
 namespace PM.C13
 open PM
 
@@ -1697,5 +1698,27 @@ example : keptState fxSchema 3 [] 0 = 0 ∧ (fxSchema.dfa 3).validEnd 0 = false 
   `node_at(pos)` finds there the node with children `rmKids` (same types as the old children, marks
   stripped) is known on the token level only (`clearIncompatibleF_spec`), on the tree level it needs
   the normal-form argument of `nodeAt_elem_of_window`. -/
+
+/-- **the step the filler request of `clear_incompatible` records is well-shaped** (discharges, for
+    `clearIncompatibleF_spec` / `clearIncompatibleF_steps`, the part of "a recorded Fitter step is
+    well-formed" that holds for every slice — Props/C11.lean `fit_emits_wf_partial`): its slice's
+    `open_start` is covered by its content, and if it is a replace-around step then
+    `insert ≤ slice.size` and range and gap are in order (`from ≤ gapFrom ≤ gapTo ≤ to`).  Still open
+    (C11 `fit_emits_wf`, end half): `open_end ≤ spineR` for a filler slice that contains non-leaf
+    fillers; for leaf fillers (`Slice.inlineLeaves`) it is `C11.insertInline_emits_wf`. -/
+theorem fillOutcome_step_shape (S : Schema) (pty : TypeId) (q : Nat) (d1 : Node) (cur : Nat) (fs : List Step)
+    (ho : FillOutcome S pty q d1 cur fs) (st : Step) (hst : st ∈ fs) :
+    (∃ sl', st.sliceOf = some sl' ∧ sl'.openStart ≤ spineL sl'.content) ∧
+    (∀ F T G1 G2 sl' ins b, st = .replaceAround F T G1 G2 sl' ins b →
+      (ins : Int) ≤ sl'.size ∧ F ≤ G1 ∧ G1 ≤ G2 ∧ G2 ≤ T) := by
+  cases ho with
+  | validEnd _ => simp at hst
+  | asked r _ hr =>
+    cases r with
+    | none => simp at hst
+    | some s0 =>
+      simp only [Option.toList_some, List.mem_singleton] at hst
+      subst hst
+      exact PM.C11.fit_emits_wf_partial S d1 cur cur _ st (Nat.le_refl _) (Nat.zero_le _) hr
 
 end PM.C13
